@@ -48,15 +48,13 @@ pub fn get_or_create_resource_node(
                     DEFAULT_MAX_RESOURCE_AMOUNT
                 )
             }
-            RESOURCE_NODE_MAP.write().unwrap().insert(
-                res_name.clone(),
-                Arc::new(ResourceNode::new(res_name.clone(), *resource_type)),
-            );
+            // another thread may have created the node since the lookup above:
+            // insert only if it is still absent, under one write lock
             RESOURCE_NODE_MAP
-                .read()
+                .write()
                 .unwrap()
-                .get(res_name)
-                .unwrap()
+                .entry(res_name.clone())
+                .or_insert_with(|| Arc::new(ResourceNode::new(res_name.clone(), *resource_type)))
                 .clone()
         }
     }
